@@ -10,6 +10,7 @@ import numpy as np
 from . import qc
 from .c08 import build_state, rho_hat, state_req
 from .common import unbits
+from .layouts import LAYOUTS, make_batch, outside_untouched, same_values
 from .qc import torch
 
 FILES = [
@@ -34,36 +35,113 @@ THEOREMS = {
 RULE = ("case = (state kind pos/cplx/dens, n<=3 quick / <=4 thorough, h, [a], scale in {0.3,1,2}, parameters all non-zero, region A, "
         "argument form, batch); for every subset A of sites: all two-row batches over unordered pairs of basis states (each gives both "
         "ordered pairs) with A as a list, one Eulerian batch of length 4^n whose cyclic neighbours cover every ordered pair once, and "
-        "random batches (size 1..9, repeated rows) with A as int (singletons) / list / numpy array / torch tensor; plus a malformed "
+        "random batches (size 1..9, repeated rows; contiguous / strided-view / transposed memory layout) and Eulerian batches with A in every "
+        "accepted form: python int, numpy integer scalars, 0-d ndarray / tensor (singletons), list, tuple, 1-d int64/int32 ndarray / tensor, "
+        "lists of numpy ints / 0-d tensors, slice and range (arithmetic progressions), boolean masks; call histories on one SWAP / state / "
+        "tensor object; plus a malformed "
         "stream (negative, repeated, out-of-range indices); non-trivial iff n >= 2, A proper non-empty, parameters non-zero; "
         "distinct by hash of (state, region, form, batch)")
 
 
-def region_forms(A, rng):
-    """the argument forms the library documents: int (singletons only), list, np.array, torch.Tensor"""
-    forms = [("list", list(A)), ("array", np.array(list(A), dtype=np.int64)), ("tensor", torch.tensor(list(A), dtype=torch.long))]
+SCALAR_FORMS = ("int", "npint", "npint32", "array0", "tensor0")
+SEQ_FORMS = ("list", "tuple", "array", "array32", "tensor", "tensor32", "list_np", "list_t0")
+MASK_FORMS = ("mask_list", "mask_array", "mask_tensor")
+
+
+def slice_for(A, n, rng):
+    """a (start, stop, step) triple with list(range(n))[start:stop:step] == A for a sorted arithmetic progression A (None otherwise);
+    the equivalent spellings (None ends, negative ends, stop beyond the last element / beyond n) are chosen from rng"""
+    A = list(A)
+    if n == 0 or A != sorted(set(A)) or any(not 0 <= k < n for k in A):
+        return None
+    if len(A) >= 2:
+        step = A[1] - A[0]
+        if any(A[i + 1] - A[i] != step for i in range(len(A) - 1)):
+            return None
+    else:
+        step = rng.choice([1, 1, 2, n + 1])
+    if not A:
+        k = rng.randrange(n + 1)
+        return rng.choice([(k, k, None), (n, None, None), (k, 0, 1), (n + 3, n + 5, 1)])
+    first, last = A[0], A[-1]
+    starts = [first, first - n] + ([None] if first == 0 else [])
+    stops = list(range(last + 1, min(last + step, n) + 1)) + [e - n for e in range(last + 1, min(last + step, n)) if e - n < 0]
+    if last + step >= n:
+        stops += [None, n + rng.randrange(0, 3)]
+    sl = (rng.choice(starts), rng.choice(stops), rng.choice([step, None] if step == 1 else [step]))
+    assert list(range(n))[slice(*sl)] == A, (A, n, sl)
+    return sl
+
+
+def region_forms(A, n, rng):
+    """every way of passing the region that `s[:, A]` of the unchanged library accepts with the meaning 'these sites':
+    scalars (python int, numpy integer scalars, 0-d ndarray, 0-d tensor) for singletons; list, tuple, 1-d ndarray (int64/int32),
+    1-d tensor (int64/int32), list of numpy ints / of 0-d tensors; slice and range for arithmetic progressions; boolean masks of
+    length n (list / ndarray / tensor).  -> [(form, slice triple or None)]"""
+    A = list(A)
+    forms = [(f, None) for f in SEQ_FORMS]
     if len(A) == 1:
-        forms.append(("int", int(A[0])))
+        forms += [(f, None) for f in SCALAR_FORMS]
+    sl = slice_for(A, n, rng)
+    if sl is not None:
+        forms.append(("slice", list(sl)))
+        if A:
+            forms.append(("range", None))
+    if n > 0:
+        forms += [(f, None) for f in MASK_FORMS]
     return forms
 
 
-def region_as_list(form, A):
-    """glue: what index list the argument denotes (ints, possibly negative / repeated), for the model's normRegion"""
-    if form == "int":
-        return [int(A)]
-    if form == "list":
-        return [int(k) for k in A]
-    return [int(k) for k in (A.tolist())]
-
-
-def mk_region(form, lst):
+def mk_region(form, lst, n=None, sl=None):
+    """the actual argument object handed to SWAP(...)"""
+    lst = [int(k) for k in lst]
     if form == "int":
         return int(lst[0])
+    if form == "npint":
+        k = lst[0]
+        return np.arange(min(k, 0), max(k, 0) + 1)[k - min(k, 0)]     # an element of np.arange: numpy integer scalar
+    if form == "npint32":
+        return np.int32(lst[0])
+    if form == "array0":
+        return np.array(lst[0])
+    if form == "tensor0":
+        return torch.tensor(lst[0])
     if form == "list":
         return list(lst)
+    if form == "tuple":
+        return tuple(lst)
     if form == "array":
-        return np.array(list(lst), dtype=np.int64)
-    return torch.tensor(list(lst), dtype=torch.long)
+        return np.array(lst, dtype=np.int64)
+    if form == "array32":
+        return np.array(lst, dtype=np.int32)
+    if form == "tensor":
+        return torch.tensor(lst, dtype=torch.long)
+    if form == "tensor32":
+        return torch.tensor(lst, dtype=torch.int32)
+    if form == "list_np":
+        return [np.int64(k) for k in lst]
+    if form == "list_t0":
+        return [torch.tensor(k) for k in lst]
+    if form == "slice":
+        return slice(*sl)
+    if form == "range":
+        return range(lst[0], lst[-1] + 1, (lst[1] - lst[0]) if len(lst) > 1 else 1)
+    mask = [j in lst for j in range(n)]
+    if form == "mask_list":
+        return mask
+    if form == "mask_array":
+        return np.array(mask, dtype=bool)
+    if form == "mask_tensor":
+        return torch.tensor(mask, dtype=torch.bool)
+    raise ValueError(form)
+
+
+def region_sites(form, lst, n, sl=None):
+    """glue: the index list the argument denotes (ints, possibly negative / repeated / out of range), for the model's normRegion —
+    stated independently of torch: python's own slice semantics for slices, the positions of True for masks"""
+    if form == "slice":
+        return list(range(n))[slice(*sl)]
+    return [int(k) for k in lst]
 
 
 def euler_sequence(N):
@@ -102,32 +180,39 @@ def purity_np(R, n, A):
     return np.trace(rA @ rA)
 
 
-def impl_swap(st, region, samples):
+def impl_swap(st, region, samples, layout="contig"):
     from qucumber.observables import SWAP
 
-    t = torch.tensor(samples, dtype=torch.double).reshape(len(samples), -1)
+    n = len(samples[0]) if samples else 0
+    t, backing = make_batch(samples, n, layout) if samples else (torch.tensor(samples, dtype=torch.double).reshape(0, -1), None)
     before = t.numpy().tobytes()
+    same = lambda: t.numpy().tobytes() == before and outside_untouched(backing, layout)  # noqa: E731
     try:
         r = SWAP(region).apply(st, t)
         ok_shape = isinstance(r, torch.Tensor) and tuple(r.shape) == (len(samples),) and r.dtype == torch.float64
         vals = r.detach().numpy().astype(np.float64).ravel().tolist()
     except Exception as e:  # noqa: BLE001
-        return {"error": type(e).__name__}, True, t.numpy().tobytes() == before, t.numpy().astype(int).tolist()
-    return vals, ok_shape, t.numpy().tobytes() == before, t.numpy().astype(int).tolist()
+        return {"error": type(e).__name__}, True, same(), t.numpy().astype(int).tolist()
+    return vals, ok_shape, same(), t.numpy().astype(int).tolist()
 
 
-def one_apply(ctx, st, base, form, region_list, samples, level="property", register=True):
+def one_apply(ctx, st, base, form, region_list, samples, level="property", register=True, sl=None, layout="contig"):
     """one SWAP(A).apply on implementation + model; returns the implementation's values"""
     kind, n = base["kind"], base["n"]
     case = {**base, "form": form, "region": region_list, "samples": samples}
-    region = mk_region(form, region_list)
-    vals, ok_shape, unchanged, after = impl_swap(st, region, samples)
+    if sl is not None:
+        case["slice"] = sl
+    if layout != "contig":
+        case["layout"] = layout
+    region = mk_region(form, region_list, n, sl)
+    vals, ok_shape, unchanged, after = impl_swap(st, region, samples, layout)
+    region_list = region_sites(form, region_list, n, sl)
     if register:
         A = sorted({k % n for k in region_list if -n <= k < n}) if n else []
         nontriv = n >= 2 and 0 < len(A) < n
         ctx.case({"state": [base["am"], base["ph"]], "region": region_list, "form": form, "samples": samples}, nontrivial=nontriv,
                  sample={"kind": kind, "n": n, "region": region_list, "form": form, "batch": len(samples)})
-        ctx.count(f"kind={kind}"); ctx.count(f"n={n}"); ctx.count(f"form={form}"); ctx.count(f"|A|={len(A)}")
+        ctx.count(f"kind={kind}"); ctx.count(f"n={n}"); ctx.count(f"form={form}"); ctx.count(f"|A|={len(A)}"); ctx.count(f"layout={layout}")
         ctx.count(f"batch={'2' if len(samples) == 2 else ('euler' if len(samples) == 4 ** n and n > 0 else 'random')}")
     ctx.oracle("apply leaves the batch unchanged (bytes)", bool(unchanged), case, sig=f"{kind}/swap/no-mutation", theorem=THEOREMS["after"])
     if not isinstance(vals, dict):
@@ -196,18 +281,30 @@ def one_state(ctx, kind, n, h, a, scale, am, ph, thorough):
                        {**base, "form": "list", "region": A, "samples": eul},
                        detail={"estimator_average": tot2, "purity_re": float(exact.real)}, sig=f"{kind}/swap/pairing-purity",
                        theorem="C09_purity + C09_pairing")
-        # --- every argument form on a random batch with repeats; all forms agree; pairing rule on the implementation
+        # --- every argument form (scalars, sequences, slices, ranges, masks; see region_forms) on a random batch with repeats and, for
+        #     n <= 3, on the Eulerian batch (every ordered pair): the values are compared with the model, all forms must agree, and the
+        #     exact-average property is evaluated for each form
         B = rng.randrange(1, 10)
         pool = [rng.choice(states) for _ in range(max(1, B - 2))]
         batch = [list(rng.choice(pool)) for _ in range(B)]
         ref = None
-        for form, _ in region_forms(A, rng):
-            vals = one_apply(ctx, st, base, form, A, batch)
+        for form, sl in region_forms(A, n, rng):
+            lay = rng.choice(LAYOUTS)    # the batch as a contiguous tensor / strided view of a larger buffer / transposed
+            vals = one_apply(ctx, st, base, form, A, batch, sl=sl, layout=lay)
+            fcase = {**base, "form": form, "region": A, "samples": batch, **({"slice": sl} if sl is not None else {}),
+                     **({"layout": lay} if lay != "contig" else {})}
             if ref is None:
                 ref = vals
             else:
-                ctx.oracle("all region argument forms agree", vals == ref, {**base, "form": form, "region": A, "samples": batch},
-                           sig=f"{kind}/swap/forms", theorem="C09_region")
+                ctx.oracle("all region argument forms agree", same_values(vals, ref), fcase, sig=f"{kind}/swap/forms", theorem="C09_region")
+            if form != "list" and n <= 3:
+                vals = one_apply(ctx, st, base, form, A, eul, sl=sl)
+                bad_f = isinstance(vals, dict)
+                tot_f = float("nan") if bad_f else sum(p[eul_idx[i]] * p[eul_idx[i - 1]] * vals[i] for i in range(len(eul)))
+                ctx.oracle("Eulerian batch, region given in this form: sum_i p(s_i)p(s_{i-1}) apply_i == tr(rho_A^2)",
+                           (not bad_f) and abs(tot_f - exact.real) <= tol, {**fcase, "samples": eul},
+                           detail={"estimator_average": tot_f, "purity_re": float(exact.real), "raised": bad_f},
+                           sig=f"{kind}/swap/purity-form", theorem="C09_purity + C09_region")
         if not isinstance(ref, dict):
             ok = True
             for i in range(B):
@@ -229,12 +326,91 @@ def one_state(ctx, kind, n, h, a, scale, am, ph, thorough):
     else:
         ctx.oracle("mixed state: empty region has purity 1", abs(est[()] - 1.0) <= 1e-8, case0, detail={"estimator_average": est[()]},
                    sig="dens/swap/trivial", theorem="C09_empty_region")
-    # --- malformed / unusual region arguments (auxiliary: outside the documented forms' normal use)
+    # --- malformed / unusual region arguments (auxiliary: outside the documented forms' normal use), in scalar and sequence forms
     batch = [list(rng.choice(states)) for _ in range(3)]
     for form, lst in [("list", [-1]), ("list", [0, 0]), ("list", [n]), ("int", [n]), ("int", [-1]), ("tensor", [-n]), ("array", [-n - 1]),
-                      ("list", [0, -n])]:
+                      ("list", [0, -n]), ("npint", [n]), ("npint", [-1]), ("npint32", [-n - 1]), ("array0", [n]), ("array0", [-n]),
+                      ("tensor0", [n]), ("tensor0", [-1]), ("tensor0", [-n - 1]), ("tuple", [0, -n]), ("tuple", [n]), ("list_np", [-1, 0]),
+                      ("list_t0", [n]), ("tensor32", [-1]), ("array32", [n + 1])]:
         one_apply(ctx, st, base, form, lst, batch, level="aux")
         ctx.count("malformed_region")
+    # --- call history on the same objects
+    for _ in range(3 if thorough else 2):
+        A = rng.choice(subsets)
+        form, sl = rng.choice(region_forms(A, n, rng))
+        history_probe(ctx, gen_history(rng, base, form, A, sl, states))
+
+
+def gen_history(rng, base, form, A, sl, states):
+    kind, n, h, a = base["kind"], base["n"], base["h"], base["a"]
+    scale = rng.choice([0.3, 1.0, 2.0])
+    if kind == "dens":
+        am2, ph2 = qc.rand_prbm_params(rng, n, h, a, scale), qc.rand_prbm_params(rng, n, h, a, scale)
+    else:
+        am2 = qc.rand_rbm_params(rng, n, h, scale)
+        ph2 = qc.rand_rbm_params(rng, n, h, scale) if kind == "cplx" else None
+    B = rng.randrange(2, 7)
+    B2 = rng.choice([b for b in range(1, 9) if b != B])
+    mk = lambda k: [list(rng.choice(states)) for _ in range(k)]  # noqa: E731
+    return {**base, "hist": True, "form": form, "region": list(A), **({"slice": sl} if sl is not None else {}),
+            "am2": am2, "ph2": ph2, "batches": [mk(B), mk(B), mk(B2), mk(B)]}
+
+
+def history_probe(ctx, case):
+    """ONE SWAP object, ONE state object and ONE sample tensor object used repeatedly: (0) first evaluation, (1) the sample tensor
+    overwritten in place (a chain advanced with overwrite=True), (2) the state re-parametrised in place (training between two
+    evaluations), (3) a batch of another length, (4) the first tensor object again with new content.  Every evaluation is compared
+    with the model of the CURRENT parameters and content."""
+    from qucumber.observables import SWAP
+
+    kind, n, h, a = case["kind"], case["n"], case["h"], case["a"]
+    form, A, sl = case["form"], case["region"], case.get("slice")
+    st = build_state(kind, n, h, a, case["am"], case["ph"])
+    obs = SWAP(mk_region(form, A, n, sl))
+    sites = region_sites(form, A, n, sl)
+    b = case["batches"]
+    t = torch.tensor(b[0], dtype=torch.double).reshape(len(b[0]), n)
+    t3 = torch.tensor(b[2], dtype=torch.double).reshape(len(b[2]), n)
+    ctx.case({"hist": [case["am"], case["am2"], A, form, b]}, nontrivial=n >= 2 and 0 < len(set(sites)) < n,
+             sample={"kind": kind, "n": n, "region": A, "form": form, "history": "same SWAP/state/tensor objects, 5 evaluations"})
+    ctx.count("history_probe")
+    am, ph = case["am"], case["ph"]
+    for step in range(5):
+        if step == 1:
+            t.copy_(torch.tensor(b[1], dtype=torch.double).reshape(len(b[1]), n))
+        elif step == 2:
+            am, ph = case["am2"], case["ph2"]
+            if kind == "dens":
+                qc.set_prbm(st.rbm_am, am, inplace=True); qc.set_prbm(st.rbm_ph, ph, inplace=True)
+            else:
+                qc.set_rbm(st.rbm_am, am, inplace=True)
+                if kind == "cplx":
+                    qc.set_rbm(st.rbm_ph, ph, inplace=True)
+        elif step == 4:
+            t.copy_(torch.tensor(b[3], dtype=torch.double).reshape(len(b[3]), n))
+        cur, content = (t3, b[2]) if step == 3 else (t, b[[0, 1, 1, 2, 3][step]])
+        sub = {**case, "step": step}
+        before = cur.numpy().tobytes()
+        try:
+            vals = obs.apply(st, cur).detach().numpy().astype(np.float64).ravel().tolist()
+        except Exception as e:  # noqa: BLE001
+            vals = {"error": type(e).__name__}
+        ctx.oracle("history: apply leaves the batch unchanged (bytes)", cur.numpy().tobytes() == before, sub, sig=f"{kind}/swap/no-mutation",
+                   theorem=THEOREMS["after"])
+        if ctx.driver is not None:
+            model = ctx.driver.call("c09.eval", samples=content, region=sites, **state_req(kind, n, h, a, am, ph))
+            if isinstance(vals, dict) or "error" in model:
+                ctx.point("history: SWAP.apply", "property", vals if isinstance(vals, dict) else "values",
+                          {"error": model["error"]} if "error" in model else "values", sub, exact=True, theorem=THEOREMS["apply"],
+                          sig=f"{kind}/swap/history")
+            else:
+                m = unbits(model["vals"])
+                ctx.point("history: SWAP.apply", "property", vals, m, sub, scale=max(1.0, float(np.max(np.abs(m)))),
+                          theorem=THEOREMS["apply"], sig=f"{kind}/swap/history")
+        # secondary (metamorphic, used by the model-free search): a fresh observable on a fresh copy of state and batch
+        fresh = impl_swap(build_state(kind, n, h, a, am, ph), mk_region(form, A, n, sl), content)[0]
+        ctx.oracle("history: same objects evaluated again == fresh objects with the current parameters and content", same_values(vals, fresh), sub,
+                   detail={"reused": vals, "fresh": fresh}, sig=f"{kind}/swap/history-oracle", theorem=THEOREMS["apply"])
 
 
 def gen_states(ctx, thorough):
@@ -274,13 +450,18 @@ def search(ctx):
 
 
 def replay(ctx, case):
+    if case.get("hist"):
+        history_probe(ctx, {k: v for k, v in case.items() if k != "step"})
+        return
     base = {k: case[k] for k in ("kind", "n", "h", "a", "scale", "am", "ph")}
     st = build_state(case["kind"], case["n"], case["h"], case["a"], case["am"], case["ph"])
-    vals = one_apply(ctx, st, base, case["form"], case["region"], case["samples"])
-    # re-evaluate the exact-average property for this region on the implementation
+    sl = case.get("slice")
+    vals = one_apply(ctx, st, base, case["form"], case["region"], case["samples"], sl=sl, layout=case.get("layout", "contig"))
+    # re-evaluate the exact-average property for this region, given in this form, on the implementation
     n = case["n"]
-    A = sorted({k % n for k in case["region"] if -n <= k < n}) if n else []
-    if not isinstance(vals, dict) and all(-n <= k < n for k in case["region"]):
+    sites = region_sites(case["form"], case["region"], n, sl)
+    A = sorted({k % n for k in sites if -n <= k < n}) if n else []
+    if not isinstance(vals, dict) and all(-n <= k < n for k in sites):
         states = qc.all_states(n)
         space_t = torch.tensor(states, dtype=torch.double)
         p = st.probability(space_t, float(st.normalization(space_t))).detach().numpy()
@@ -288,9 +469,10 @@ def replay(ctx, case):
         tot = 0.0
         for x in range(len(states)):
             for y in range(len(states)):
-                v = impl_swap(st, list(case["region"]), [states[x], states[y]])[0]
+                v = impl_swap(st, mk_region(case["form"], case["region"], n, sl), [states[x], states[y]])[0]
                 tot += p[x] * p[y] * v[0]
         exact = purity_np(R, n, A)
         ctx.oracle("sum_{s1,s2} p(s1)p(s2) SWAP_A(s1,s2) == tr(rho_A^2) (explicit partial trace)",
                    abs(tot - exact.real) <= 1e-8 * (1 + abs(exact)), case,
                    detail={"estimator_average": tot, "purity_re": float(exact.real)}, sig=f"{case['kind']}/swap/purity", theorem="C09_purity")
+
